@@ -4,8 +4,6 @@ package main
 
 import (
 	"bytes"
-	"github.com/alicebob/miniredis"
-	redisstore "github.com/chihaya/chihaya/storage/redis"
 	"context"
 	"crypto/ecdsa"
 	"crypto/elliptic"
@@ -18,8 +16,10 @@ import (
 	"encoding/pem"
 	"errors"
 	"fmt"
+	"github.com/alicebob/miniredis"
 	"github.com/chihaya/chihaya/pkg/metrics"
 	"github.com/chihaya/chihaya/pkg/timecache"
+	redisstore "github.com/chihaya/chihaya/storage/redis"
 	"math/big"
 	"net"
 	"net/http"
@@ -405,7 +405,7 @@ func lifeHTTPL(c *Ctx, scenario string, delayUs int, listeners string) {
 		left := -1
 		if early {
 			left = goroutinesLeft("chihaya/frontend/http.", g0) // Stop has completed: nothing of the frontend runs any more
-			stopStore() // as cmd/chihaya does once the frontends (and the logic) have stopped
+			stopStore()                                         // as cmd/chihaya does once the frontends (and the logic) have stopped
 		}
 		if scenario != "traffic" {
 			close(gl.gate)
@@ -735,7 +735,7 @@ func lifeMetrics(c *Ctx, immediate bool) {
 				o = "PANIC " + strings.Fields(fmt.Sprint(p))[0]
 			}
 		}()
-		port := freePort()
+		port := privatePort()
 		addr := fmt.Sprintf("127.0.0.1:%d", port)
 		g0 := goroutinesOf("chihaya/pkg/metrics.")
 		srv := metrics.NewServer(addr)
@@ -834,37 +834,23 @@ func lifeMetricsRace(c *Ctx, n int) {
 				o = "PANIC " + strings.Fields(fmt.Sprint(p))[0]
 			}
 		}()
-		const workers = 8
 		g0 := goroutinesOf("chihaya/pkg/metrics.")
-		var free, pending int32
-		var wg sync.WaitGroup
-		for w := 0; w < workers; w++ {
-			wg.Add(1)
-			go func(w int) {
-				defer wg.Done()
-				for i := w; i < n; i += workers {
-					l0, err := net.Listen("tcp", "127.0.0.1:0")
-					if err != nil {
-						continue
-					}
-					addr := l0.Addr().String()
-					l0.Close()
-					srv := metrics.NewServer(addr)
-					for spin := (i % 50) * 200; spin > 0; spin-- { // 0 … ~100 µs
-						runtime.Gosched()
-					}
-					if ok, _ := waitStop(srv.Stop(), 5*time.Second); !ok {
-						atomic.AddInt32(&pending, 1)
-						continue
-					}
-					if l, err := net.Listen("tcp", addr); err == nil {
-						l.Close()
-						atomic.AddInt32(&free, 1)
-					}
-				}
-			}(w)
+		free, pending := 0, 0
+		for i := 0; i < n; i++ {
+			addr := fmt.Sprintf("127.0.0.1:%d", privatePort())
+			srv := metrics.NewServer(addr)
+			for spin := (i % 50) * 200; spin > 0; spin-- { // 0 … ~100 µs
+				runtime.Gosched()
+			}
+			if ok, _ := waitStop(srv.Stop(), 5*time.Second); !ok {
+				pending++
+				continue
+			}
+			if l, err := net.Listen("tcp", addr); err == nil {
+				l.Close()
+				free++
+			}
 		}
-		wg.Wait()
 		return fmt.Sprintf("free_at_stop=%d/%d stop_pending=%d goroutines_left=%d", free, n, pending, goroutinesLeft("chihaya/pkg/metrics.", g0))
 	}()
 	c.Emit(op, obs)
@@ -1008,7 +994,7 @@ func lifeMetricsInflight(c *Ctx, secs int) {
 				o = "PANIC " + strings.Fields(fmt.Sprint(p))[0]
 			}
 		}()
-		addr := fmt.Sprintf("127.0.0.1:%d", freePort())
+		addr := fmt.Sprintf("127.0.0.1:%d", privatePort())
 		srv := metrics.NewServer(addr)
 		type result struct {
 			ok   bool
@@ -1087,4 +1073,27 @@ func lifeUDPRace(c *Ctx, n int) {
 		return fmt.Sprintf("serve_goroutine_gone_at_stop=%d/%d stop_pending=%d", gone, n, pending)
 	}()
 	c.Emit(op, obs)
+}
+
+// privatePort hands out ports below the range the kernel picks ephemeral ports from, one after the other, checking that
+// nothing listens there: between this check and the bind of the component under test nobody else will take the port
+// (an ephemeral one, as freePort() returns, can be given to any other socket of the machine in that window — fatal for
+// components that call log.Fatal when they cannot bind).
+var privatePortNext int32 = 21000
+
+func privatePort() int {
+	for i := 0; i < 20000; i++ {
+		p := int(atomic.AddInt32(&privatePortNext, 1))
+		if p > 31000 {
+			atomic.StoreInt32(&privatePortNext, 21000)
+			continue
+		}
+		l, err := net.Listen("tcp", fmt.Sprintf("127.0.0.1:%d", p))
+		if err != nil {
+			continue
+		}
+		l.Close()
+		return p
+	}
+	return freePort()
 }
